@@ -261,9 +261,13 @@ func (e *Engine) initExt2() {
 		objComps(m, c.Args[0].Type())
 	}
 	e.reg("github.com/spdx/tools-golang/json.Read", "spdxjson.Read(r): returns an arbitrary *spdx.Document (non-nil when err == nil; every pointer inside may be nil, slices any length, pointer elements may be nil - except Packages and Relationships, whose entries the library itself dereferences / filters in Document.UnmarshalJSON), consumes the stream. NOTE: the library panics on packages:[null]; its totality is assumed, not checked", func(f *Frame, st *State, c *ssa.CallCommon, args []Val, rt types.Type, pos token.Pos) Val {
-		consume(f, st, streamRef(args[0]))
+		stream := streamRef(args[0])
+		consume(f, st, stream)
 		v := valueOrError(f, st, rt, "spdxdoc")
 		vc := f.vc
+		// ghost: the decoded document is a function of the stream (spdxdoc(r) in contracts)
+		docOf := vc.declareFun("spdx.docOf", []*Sort{SInt}, SInt)
+		vc.fact(Imp(Ne(v.L[0], Zero), Eq(v.L[0], mk(SInt, docOf, stream))))
 		doc := Val{T: resultTypes(rt)[0], L: v.L[:1]}
 		if pt, ok := doc.T.Underlying().(*types.Pointer); ok {
 			if stt, ok := pt.Elem().Underlying().(*types.Struct); ok {
